@@ -96,3 +96,17 @@ Theorem C05_get_base_region :
     ev (get_base_box O chain root lo hi) p = ev root p.
 Proof. exact @get_base_box_sound. Qed.
 Print Assumptions C05_get_base_region.
+
+(* THE KEEP FUNCTIONS ARE THE SOURCE'S.  The lambdas that IntervalEvaluator::push (eval_interval.cpp) and
+   ArrayEvaluator::valueAndPush (eval_array.cpp) hand to Tape::push - which branch of a min / max survives, decided from the
+   per-clause bounds and may-be-NaN flags, respectively from the slot-0 values - are re-read on every run by
+   translate/gen_keep.py (Gen/KeepFns_gen.v: the if / else-if / return chains as nested ifs, in source order; the push types
+   INTERVAL + region and SPECIALIZED are checked too) and are the [keep_interval] / [keep_point] of the model that
+   C05_interval_push / C05_point_push are about, for every number type *)
+From LF Require Gen.KeepFns_gen Eval.KeepAgree.
+Theorem C05_keep_functions_from_source :
+  forall (num : Type) (O : ops num),
+    (forall lo hi maybe_nan c, KeepFns_gen.keep_interval_gen O lo hi maybe_nan c = keep_interval O lo hi maybe_nan c) /\
+    (forall v c, KeepFns_gen.keep_point_gen O v c = keep_point O v c).
+Proof. intros num O. split; [exact (KeepAgree.keep_interval_gen_eq O) | exact (KeepAgree.keep_point_gen_eq O)]. Qed.
+Print Assumptions C05_keep_functions_from_source.
